@@ -47,7 +47,7 @@ const (
 	c03SrcDomain  = "src.example"
 	c03NoopText   = "I have successfully done nothing"
 	c03IOTimeout  = 60 * time.Second
-	c03ProbeBlock = 50 * time.Millisecond
+	c03ProbeBlock = 25 * time.Millisecond
 )
 
 var (
